@@ -311,7 +311,9 @@ func (gc *primaryGC) reapRecords(fileNum uint32, lowUsePercent int64) (bool, err
 			if err != nil {
 				return false, fmt.Errorf("cannot get index key for record key: %w", err)
 			}
-			// Store the key and value in the primary.
+			// Store the key and value in the primary. The primary keeps the
+			// value until it is flushed, so it must not alias the read buffer.
+			val = append([]byte(nil), val...)
 			fileOffset, err := gc.primary.Put(key, val)
 			if err != nil {
 				return false, fmt.Errorf("cannot put new primary record: %w", err)
